@@ -277,6 +277,98 @@ theorem order_independent_mprops (T : Tables) (env : Name → Option ClassDecl) 
       rw [class_mprops_faithful T ops1 ha1 hw1 n cr1 hf1, class_mprops_faithful T ops2 ha2 hw2 n cr2 hf2,
         (order_independent_partial T env ops1 ops2 ha1 hc1 ha2 hc2 n cr1 cr2 hf1 hf2).1]
 
+/-! ### instances: the module-level description is a function of the class chain and the configuration -/
+
+theorem run_append (T : Tables) (w : World) (a b : List Op) : run T w (a ++ b) = run T (run T w a) b := by
+  simp [run, List.foldl_append]
+
+theorem run_cons (T : Tables) (w : World) (op : Op) (ops : List Op) : run T w (op :: ops) = run T (step T w op) ops := rfl
+
+theorem admissibleRun_append (T : Tables) (a b : List Op) (w : World) (h : AdmissibleRun T w (a ++ b)) :
+    AdmissibleRun T w a ∧ AdmissibleRun T (run T w a) b := by
+  induction a generalizing w with
+  | nil => exact ⟨trivial, h⟩
+  | cons op a ih =>
+    obtain ⟨h1, h2⟩ := ih (step T w op) h.2
+    exact ⟨⟨h.1, h1⟩, by simpa [run] using h2⟩
+
+/-- a class that exists is not touched by any admissible operation -/
+theorem findClass_persist (T : Tables) (w : World) (op : Op) (hadm : Admissible w op) (c : Name)
+    (hc : w.findClass c ≠ none) : (step T w op).findClass c = w.findClass c := by
+  apply findClass_step_ne
+  intro h
+  cases op with
+  | define d =>
+    simp only [Op.target, Owner.cls.injEq] at h
+    exact hc (h ▸ hadm)
+  | inst n c' cfg => simp [Op.target] at h
+  | setprop i p pa k v => simp [Op.target] at h
+  | addEnum i p m' => simp [Op.target] at h
+
+/-- the module properties of an instance are not changed by any admissible sequence of operations on other owners -/
+theorem inst_mprops_stable (T : Tables) (n : Name) (ops : List Op) (w : World) (hb : Bounded w) (hs : Separated w)
+    (hrun : AdmissibleRun T w ops) (hops : ∀ op ∈ ops, op.target ≠ .inst n)
+    (hex : ∀ ir, w.findInst n = some ir → w.findClass ir.cls ≠ none) :
+    describeM (run T w ops) (.inst n) = describeM w (.inst n) := by
+  induction ops generalizing w with
+  | nil => rfl
+  | cons op ops ih =>
+    have hne : Owner.inst n ≠ op.target := fun h => hops op List.mem_cons_self h.symm
+    have h1 := isolated_mprops T w op hrun.1 hb hs (.inst n) hne
+      (fun i ir hi hf => by cases hi; exact hex ir hf)
+    have hp := separated_preserved T w op hrun.1 hb hs
+    have hex' : ∀ ir, (step T w op).findInst n = some ir → (step T w op).findClass ir.cls ≠ none := by
+      intro ir hf
+      rw [findInst_step_ne T w op n hne] at hf
+      rw [findClass_persist T w op hrun.1 ir.cls (hex ir hf)]
+      exact hex ir hf
+    have h2 := ih (step T w op) hp.1 hp.2 hrun.2 (fun op' h => hops op' (List.mem_cons_of_mem _ h)) hex'
+    simp only [run, List.foldl_cons] at h2 ⊢
+    rw [h2, h1]
+
+/-- what an instance of a class with module properties `props` (value level) configured with `cfg` shows -/
+def instMSpec (props : List (Name × PSlot)) (cfg : List (Name × PropMap)) : List (Name × MView) :=
+  (props.map (fun ks => (ks.1, (⟨some ks.2.val, none⟩ : MView)))).map (fun nv =>
+    (nv.1, ⟨nv.2.prop, aget? (instMVals (props.map (fun ks => (ks.1, (⟨some ks.2.val, none⟩ : MView)))) cfg) nv.1⟩))
+
+/-- **a module's (module-level) description is a function of its own class chain and its own configuration only**:
+in any admissible program that creates the instance `n` of class `c` with configuration `cfg` at some point, and whatever
+it does before (to other owners: `pre`) and afterwards (`post`: operations on other owners), the instance shows
+`instMSpec` of the value `HasProperties.__init_subclass__` computed for `c` — which is `pureOf env` of the class bodies
+(`order_independent_partial`) — and of `cfg`. -/
+theorem inst_mprops_function (T : Tables) (pre post : List Op) (n c : Name) (cfg : List (Name × PropMap))
+    (hrun : AdmissibleRun T {} (pre ++ Op.inst n c cfg :: post)) (hwf : ∀ op ∈ pre, WellFormed op)
+    (cr : ClassRec) (hc : (run T {} pre).findClass c = some cr) (hpost : ∀ op ∈ post, op.target ≠ .inst n) :
+    describeM (run T {} (pre ++ Op.inst n c cfg :: post)) (.inst n) = instMSpec cr.pure.props cfg := by
+  obtain ⟨hpre, hrest⟩ := admissibleRun_append T pre _ {} hrun
+  have hinv : Bounded (run T {} pre) ∧ Separated (run T {} pre) := by
+    have key : ∀ (ops : List Op) (w : World), InvRun T w ops → Bounded (run T w ops) ∧ Separated (run T w ops) := by
+      intro ops w h
+      induction h with
+      | nil w hb hs => exact ⟨hb, hs⟩
+      | cons w op ops _ _ _ ih => simpa [run] using ih
+    exact key pre {} (invRun_of_admissible T pre {} empty_world_ok.1 empty_world_ok.2 hpre)
+  have hnone : (run T {} pre).findInst n = none := hrest.1
+  have hp := separated_preserved T (run T {} pre) (.inst n c cfg) hrest.1 hinv.1 hinv.2
+  have hfind : (instantiate T (run T {} pre) n c cfg).findInst n =
+      some ⟨n, c, ((instViews T (describeH (run T {} pre) (.cls c)) cfg).foldl allocView ((run T {} pre).heap, [])).2,
+        instMVals (describeM (run T {} pre) (.cls c)) cfg⟩ := by
+    unfold World.findInst instantiate
+    exact find?_append_new _ _ _ hnone (by simp)
+  rw [run_append, run_cons]
+  have hstable := inst_mprops_stable T n post (step T (run T {} pre) (.inst n c cfg)) hp.1 hp.2 hrest.2 hpost
+    (by
+      intro ir hf
+      simp only [step] at hf ⊢
+      rw [hfind] at hf
+      cases hf
+      show (run T {} pre).findClass c ≠ none
+      rw [hc]; exact fun h => by cases h)
+  rw [hstable]
+  show describeM (instantiate T (run T {} pre) n c cfg) (.inst n) = _
+  rw [describeM_instantiate T _ n c cfg hinv.1 hnone, class_mprops_faithful T pre hpre hwf c cr hc]
+  rfl
+
 /-! ## non-vacuity -/
 
 /-- a small table set for the examples -/
@@ -405,6 +497,22 @@ example : ConsistentRun exT exEnv2 {} exOps2 := by
       have h' : (run exT {} (exOps2.take 3)).findClass "M" = none := h
       rw [h'] at this
       cases this
+
+/-- `inst_mprops_function` on this program: `exOps2 = pre ++ .inst "j2" "P" cfg :: post` with `pre` defining `P`, `post`
+operating on `j1` and `j3` only; `j2` shows `instMSpec` of the properties of `P` (group = cryo, held by the Property object
+in the `__dict__` of `P`) and of its configuration (group = x) -/
+example : exOps2 = exOps2.take 4 ++ Op.inst "j2" "P" [("group", [("value", "\"x\"")])] :: exOps2.drop 5 := rfl
+
+example : ((run exT {} (exOps2.take 4)).findClass "P").isSome = true ∧
+    (∀ op ∈ exOps2.drop 5, op.target ≠ .inst "j2") := by
+  refine ⟨by decide +kernel, ?_⟩
+  intro op hop
+  simp only [exOps2, List.drop_succ_cons, List.drop_zero, List.mem_cons, List.not_mem_nil, or_false] at hop
+  rcases hop with rfl | rfl <;> simp [Op.target]
+
+example : describeM (run exT {} exOps2) (.inst "j2") =
+    instMSpec [("group", ⟨"P", { pGroup with value := some "\"cryo\"" }⟩)] [("group", [("value", "\"x\"")])] := by
+  decide +kernel
 
 /-- kind and the properties of the members, as far as the example needs them -/
 def shape (t : DTree) : String × List PropMap := (t.kind, t.children.map (·.props))
